@@ -483,11 +483,32 @@ def _replay_job(job: typing.Tuple[str, str, typing.List[str]]) -> dict:
 
 
 # ------------------------------------------------------------------------------------------------ driver
+def _tree_fingerprint() -> str:
+    """Templates are read from disk by every run: the tree under test has to stay put while the graph is explored."""
+    from vf.core import REPO
+
+    rows = []
+    for dirpath, dirnames, filenames in os.walk(REPO / "src" / "nunavut"):
+        dirnames[:] = sorted(d for d in dirnames if d != "__pycache__")
+        for f in sorted(filenames):
+            if f.endswith((".pyc", ".pyo")):
+                continue
+            st = os.stat(os.path.join(dirpath, f))
+            rows.append(f"{dirpath}/{f}:{st.st_size}:{st.st_mtime_ns}")
+    return str(stable_hash("\n".join(rows)))
+
+
+def _check_tree_unchanged(fp: str) -> None:
+    if _tree_fingerprint() != fp:
+        raise HarnessError("the nunavut tree under test was modified while the check was running; results discarded")
+
+
 def _chunks(xs: typing.List[str], n: int) -> typing.List[typing.List[str]]:
     return [xs[i : i + n] for i in range(0, len(xs), n)]
 
 
 def run(ctx: Ctx) -> int:
+    tree = _tree_fingerprint()
     _setup(ctx.scratch)
     depth_bound = 3 if ctx.thorough else 2
     models = list(MODELS)
@@ -578,6 +599,7 @@ def run(ctx: Ctx) -> int:
                 if r["dst"] not in seen[m]:
                     seen[m][r["dst"]] = {"init": init, "history": history + [r["eid"]], "depth": depth}
                     new.append((m, r["dst"]))
+        _check_tree_unchanged(tree)
         per_level.append({m: sum(1 for mm, _ in new if mm == m) for m in models})
         completed = depth
         frontier = new
@@ -591,13 +613,17 @@ def run(ctx: Ctx) -> int:
         (m, k) for m in models for k, st in sorted(seen[m].items()) if st["history"] and stable_hash("C12/img/" + k) % 16 == 0
     ]
     reps = ctx.pool_map(_replay_job, [(m, seen[m][k]["init"], seen[m][k]["history"]) for m, k in check_states])
+    _check_tree_unchanged(tree)
     for (m, k), rep in zip(check_states, reps):
         if rep["final"] != k:
             raise HarnessError(
-                f"[{m}] state {k} is not what its history {seen[m][k]['init']} + {seen[m][k]['history']} produces ({rep['final']})"
+                f"[{m}] state {k} is not what its history {seen[m][k]['init']} + {seen[m][k]['history']} produces "
+                f"({rep['final']}; replayed steps: {[(st['eid'], st['rc'], st['exc'], st['dst']) for st in rep['steps']]}): "
+                "execution is not a function of (directory state, event) - transient failure or changing environment"
             )
     vlist = sorted(ctx.bag.v.items())[:60]
     vreps = ctx.pool_map(_replay_job, [(v.case["model"], v.case["init"], v.case["history"]) for _, v in vlist])
+    _check_tree_unchanged(tree)
     for (_, v), rep in zip(vlist, vreps):
         again = [sig for sig, _ in rep["steps"][-1]["viols"]]
         if v.sig not in again:
